@@ -18,7 +18,7 @@ Lemma acc_spec g0 g1 g2 m0 m1 m2 sa sm na00 na01 na02 na10 na11 na12 na20 na21 n
   = Val (add3 (body [q0w;q0x;q0y;q0z] [g0;g1;g2]) (scale3 sa [na00;na01;na02]) ++
          add3 (body [q1w;q1x;q1y;q1z] [g0;g1;g2]) (scale3 sa [na10;na11;na12]) ++
          add3 (body [q2w;q2x;q2y;q2z] [g0;g1;g2]) (scale3 sa [na20;na21;na22])).
-Proof. unfold C20_acc_R. revert U0 U1 U2. open3. try destr_dec; unfold_c20; val_eq; uring. Qed.
+Proof. unfold_c20. unfold C20_acc_R. revert U0 U1 U2. open3. try destr_dec; val_eq; uring. Qed.
 
 (* zero accelerometer noise: the rows are exactly the body-frame gravity *)
 Lemma acc_zero g0 g1 g2 m0 m1 m2 sm na00 na01 na02 na10 na11 na12 na20 na21 na22 :
